@@ -202,7 +202,23 @@ func c19eval(r *vx.R, c c19case) {
 			}
 		}
 	} else {
-		if err != nil {
+		zeros, maxZeros := 0, 0
+		for _, a := range c.Script {
+			if a == "zero" {
+				zeros++
+				if zeros > maxZeros {
+					maxZeros = zeros
+				}
+			} else {
+				zeros = 0
+			}
+		}
+		if err != nil && maxZeros >= 100 {
+			// giving up with an error on a source that makes no progress for 100 reads in a row (the io.ErrNoProgress
+			// convention) is a conservative answer the statement does not exclude: recorded, not a violation. Going on
+			// with a partially filled buffer is (checked above and below).
+			r.Add("observation_error_after_100_or_more_empty_reads", 1)
+		} else if err != nil {
 			r.Violation(key+":spurious-error", fmt.Sprintf("reader delivered every byte (script %v) but the call failed: %v", c.Script, err), c)
 		} else {
 			// identical to the same byte stream through a perfect reader
